@@ -115,6 +115,17 @@ theorem sound_arith (p : Passed) (a : Static) (c : Bool) (ha : Sound p a)
       case number.refl => exact sound_number_or_never _
       case string.refl => cases hs
 
+/-- an operand whose type the implementation inferred is not one the specification knows nothing about -/
+theorem sound_known (p : Passed) (a : Static) (ha : Sound p a) :
+    p = .prim .vararg ∨ a.isUnknown = false := by
+  cases p with
+  | str s => have : a = .lit s := ha; subst this; exact Or.inr rfl
+  | prim t =>
+    rcases ha with hv | hn | ⟨T, _, hst⟩
+    · exact Or.inl (by rw [hv])
+    · subst hn; exact Or.inr rfl
+    · subst hst; exact Or.inr rfl
+
 theorem getArgType_sound : ∀ (e : Expr) (p : Passed), tame e = true → getArgType e = some p →
     Sound p (staticOf e) := by
   intro e
@@ -142,7 +153,9 @@ theorem getArgType_sound : ∀ (e : Expr) (p : Passed), tame e = true → getArg
         | false => rfl
         | true => rw [stringy_of e p h hp] at ht; cases ht.2
       have := sound_arith p (staticOf e) true (ih p ht.1 h) hns
-      simpa [staticOf, unopStatic] using this
+      rcases sound_known p _ (ih p ht.1 h) with hv | hk
+      · subst hv; exact Or.inl rfl
+      · simpa [staticOf, unopStatic, hk] using this
   | binop op l r ihl ihr =>
     intro p ht h
     simp only [getArgType] at h
@@ -169,8 +182,12 @@ theorem getArgType_sound : ∀ (e : Expr) (p : Passed), tame e = true → getArg
           rw [stringy_of l p h1 hp, stringy_of r p h2 hp] at this; cases this
       have a1 := ihl p ht.1.1 h1
       have a2 := ihr p ht.1.2 h2
+      rcases sound_known p _ a1 with hv | hk1
+      · subst hv; exact Or.inl rfl
+      rcases sound_known p _ a2 with hv | hk2
+      · subst hv; exact Or.inl rfl
       -- the result is a number exactly when both operands can take part in arithmetic
-      show Sound p (if (staticOf l).arithOk && (staticOf r).arithOk then Static.ty .number else .never)
+      simp only [staticOf, binopStatic, hk1, hk2, Bool.or_false, Bool.false_eq_true, ite_false]
       cases hr : (staticOf r).arithOk with
       | true => exact sound_arith p _ true a1 hns
       | false =>
